@@ -204,8 +204,16 @@ fn cmd_run(args: &[String]) -> i32 {
     let threads: usize = arg(args, "--threads").and_then(|s| s.parse().ok()).unwrap_or(16);
     let replay_dir = arg(args, "--replay-dir").unwrap_or_else(|| "/verif/replays".into());
     let out_file = arg(args, "--out");
+    let first_program: u64 = arg(args, "--first-program").and_then(|s| s.parse().ok()).unwrap_or(0);
+    let progress_dir = arg(args, "--progress-dir");
+    if let Some(d) = &progress_dir {
+        std::fs::create_dir_all(d).ok();
+    }
+    let baseline_only = args.iter().any(|a| a == "--baseline-only");
 
-    let next = AtomicU64::new(0);
+    let next = AtomicU64::new(first_program);
+    let programs = first_program + programs;
+    let wid = AtomicU64::new(0);
     let execs = AtomicU64::new(0);
     let inter: Mutex<BTreeSet<u64>> = Mutex::new(BTreeSet::new());
     let kinds: Mutex<std::collections::BTreeMap<String, u64>> = Mutex::new(Default::default());
@@ -220,6 +228,10 @@ fn cmd_run(args: &[String]) -> i32 {
         for _ in 0..threads.max(1) {
             sc.spawn(|| {
                 silence_hooks_thread();
+                let my = wid.fetch_add(1, Ordering::Relaxed);
+                let mut progress = progress_dir.as_ref().and_then(|d| {
+                    std::fs::OpenOptions::new().create(true).write(true).truncate(true).open(format!("{}/worker-{}", d, my)).ok()
+                });
                 loop {
                     if first_fail.lock().unwrap().is_some() {
                         break;
@@ -228,9 +240,23 @@ fn cmd_run(args: &[String]) -> i32 {
                     if i >= programs {
                         break;
                     }
+                    if let Some(f) = progress.as_mut() {
+                        use std::io::{Seek, Write};
+                        let _ = f.seek(std::io::SeekFrom::Start(0));
+                        let _ = f.write_all(format!("{:020}\n", i).as_bytes());
+                    }
                     let ps = run_seed(seed, i);
                     let mut r = Rng::new(ps);
                     let scn = gen_scenario(&mut r, false);
+                    if baseline_only {
+                        // thread-free execution only (used to classify a crash)
+                        let base = seasim::observe::guarded(|| run_scenario::<SeqRt>(&scn));
+                        if !matches!(&base, Ok(f) if f.is_empty()) {
+                            not_schedule_dependent.fetch_add(1, Ordering::Relaxed);
+                        }
+                        done.fetch_add(1, Ordering::Relaxed);
+                        continue;
+                    }
                     // a fresh OS thread per program: per-thread state of the tree under test
                     // (thread_local!) never leaks from one program's executions into another's
                     let verdict = std::thread::scope(|s2| {
